@@ -341,7 +341,7 @@ def ops_strategy():
         st.tuples(st.just("bad_value"), sel, sel, sel, st.sampled_from(["over", "neg", "type"]),
                   st.integers(0, len(BAD_VALUES) - 1)),
         st.tuples(st.just("bad_new"), st.sampled_from(["bits0", "bits-1", "bitsfloat", "bitsstr", "bitsnone",
-                                                       "dataneg", "dataover", "bytesover"]), width,
+                                                       "dataneg", "dataover", "bytesover", "frame-over", "frame-fit"]), width,
                   st.sampled_from(["Frame", "ForwardFrame"])),
         st.tuples(st.just("bad_newback"), st.sampled_from(["neg1", "neg", "over", "over2", "bytes2", "bytes0", "float",
                                                            "str", "none"]), sel, st.booleans()),
@@ -587,6 +587,20 @@ def _interp(ops):
             elif kind == "bad_new":
                 w = op[2]
                 what = op[1]
+                if what in ("frame-over", "frame-fit"):
+                    # initial data that is itself a frame: refused, or taken for its value - never a value out of range
+                    src = frame.Frame(w + 8, ((1 << (w + 8)) - 1) if what == "frame-over" else 1)
+                    cls = getattr(frame, op[3]) if len(op) > 3 else frame.Frame
+                    try:
+                        g = cls(w, src)
+                    except Exception:  # noqa - refused
+                        g = None
+                    if g is not None:
+                        n_g = g.as_integer
+                        if what == "frame-over" or len(g) != w or not 0 <= n_g < (1 << w):
+                            out.append(("C05:accepted:constructor-" + what, "%s: %s(%d, Frame(%d, %#x)) was accepted: width %d value %#x"
+                                        % (where, cls.__name__, w, w + 8, src.as_integer, len(g), n_g)))
+                    continue
                 args = {
                     "bits0": (0, 0), "bits-1": (-1, 0), "bitsfloat": (float(w), 0), "bitsstr": (str(w), 0),
                     "bitsnone": (None, 0), "dataneg": (w, -1), "dataover": (w, 1 << w),
